@@ -35,7 +35,7 @@ CHECKS = {
  "C19": dict(tech="call-graph reachability matrix (front end x mutation kind) to persistence functions with a storage effect; boot path reachability",
              text="Decides a necessary condition per cell: without a path from the endpoint's write branch to a persistence call with a storage effect, an acknowledged write of that kind cannot survive a restart. Ten cells fail today (known findings). Also decides that every entity value of the result rows reaches its persist call and that a failed persist call is never acknowledged.", ref="§5 C19"),
  "C32": dict(tech="HIR match-arm facts (variant -> callee sets) for the state machine, shared must-pass storage-effect rule (C16), CHA reachability for nondeterminism sources, must-pass in RaftNode::write",
-             text="Decides the wiring of each replicated request kind to its own persistence function with a storage effect, error surfacing, determinism of apply (no RNG/env/clock outside entity timestamps) and apply-before-acknowledge.", ref="§5 C32"),
+             text="Decides the wiring of each replicated request kind to its own persistence function with a storage effect, error surfacing, determinism of apply (no RNG/env/clock outside entity timestamps), apply-before-acknowledge, and (shared with C16) that an update merges with the update winning and nothing is acknowledged unlogged.", ref="§5 C32"),
  "C06": dict(tech="transitive field write/read effects over the call graph (mutator kind table), representation-completeness of deleting mutators vs creators/compaction, raw-handle bypass inventory; closure-predicate analysis of adjacency removals (by relationship id), dominance of endpoint liveness tests over adjacency writes, per-function field-read coherence of tier pairs",
              text="Decides which representations of an edge/node each mutator maintains: a deleting mutator that recycles ids must cover every representation creators and compaction write (three known findings: the frozen CSR tier), counts read only maintained data, creators are complete, labels of stored nodes change only through index-maintaining methods, adjacency entries are removed by relationship id only, every creator tests both endpoints, and read views read whole (frozen, buffer) pairs of one direction.", ref="§5 C06"),
  "C07": dict(tech="copy-on-write guard rule on functions taking last_mut of a version chain; generic-instantiation match for flatten over Vec<Vec<Node>>; chain-emptying callee class in delete_node; reachability of last_mut from the older-version side avoiding the clone push; write-effect pairing and base-image provenance for the relationship version log",
@@ -63,15 +63,15 @@ CHECKS = {
  "C25": dict(tech="consumer classification of every numeric parse Result in the parser (including call sites of the generic parse helper), cast sinks on parsed numbers; panic-site inventory justified by grammar facts read from cypher.pest; dominance of the nesting-depth guard over the recursive parse",
              text="Decides the numeric clause: every numeral/bound parse is surfaced as an error, never unwrapped, defaulted or dropped, and parsed numbers are not narrowed. The no-panic clause is decided as: every panic-capable site over pest pairs is justified by a grammar fact or a reviewed entry, and nesting depth is bounded before the recursive parser runs.", ref="§5 C25"),
  "C35": dict(tech="HIR arm facts for every match on Expression::Parameter and for substitute_expr (variant coverage, recursion into Expression-typed children from ADT facts), order of substitution vs planning",
-             text="Decides the only ways a parameterised run could silently differ: a defaulting evaluation arm, inexact/non-recursive substitution, or planning before substitution.", ref="§5 C35"),
+             text="Decides the only ways a parameterised run could silently differ: a defaulting evaluation arm, inexact/non-recursive substitution, planning before substitution, a substitution skipped on anything but empty parameter maps, an ORDER BY position or the clause pipeline the substitution does not visit, or an evaluation error dropped outside the reviewed sort-key sites.", ref="§5 C35"),
  "C12": dict(tech="HIR arm facts of the two codec functions (tag literals, constructed variants), identity-op classification of the String arm, def-use of the label argument to create_node*, serde-struct constant flow for record kinds; shared C06/C07 rules",
              text="Decides agreement of the writer's and reader's tag tables and record kinds, identity decoding of strings, no invented label, one version per exported node, imported labels indexed, both property tiers merged into every node record, an id set that cannot drop ids, and no record field written as a constant. Value-level round trip (non-finite floats, __type-keyed maps) is not decided.", ref="§5 C12"),
  "C13": dict(tech="def-use coverage of every store-mutating call in the import against the rollback's record (created_nodes), transitive write effects to find the mutators, reviewed neutral-effect exception",
              text="Decides which mutations of a failing import are outside the rollback's reach (eight known findings: merges into existing nodes, edges between pre-existing nodes, hierarchy declarations), and that a read error of the snapshot stream always fails the import.", ref="§5 C13"),
  "C34": dict(tech="CHA call-graph unreachability of unseeded randomness and rayon reductions from every solve() inside the crate, sibling bound-repair rule, guarded-sampling rule (dominating lower<upper comparison over the Range's own operands)",
-             text="Decides seed-determinism prerequisites, bound repair in every solver, and that no bounds-derived half-open range is sampled unguarded (fixed). History monotonicity, dominance and fitness consistency are not decided.", ref="§5 C34"),
+             text="Decides seed-determinism prerequisites (including: no read of the thread count), bound repair in every solver, and that no bounds-derived half-open range is sampled unguarded (fixed). History monotonicity, dominance and fitness consistency are not decided.", ref="§5 C34"),
  "C36": dict(tech="aggregate/arm tables of the three rio wrapper files compared per format and across formats",
-             text="Weak: decides only the wrappers' term/literal variant tables, writer vs reader. Escaping of string content is inside rio_* and not decided.", ref="§5 C36"),
+             text="Weak: decides the wrappers' term/literal variant tables, writer vs reader, and that lexical values / the formatter output cross the wrappers unchanged. Escaping of string content inside rio_* is not decided.", ref="§5 C36"),
 }
 
 NA = {
